@@ -828,9 +828,12 @@ impl SimdCopy {
         // Handle remaining bytes with overlapping load
         if len > 0 {
             if len >= 8 {
+                // 8..=15 bytes left: first 8 and last 8 bytes (overlapping) cover the whole tail
                 let offset = len - 8;
                 unsafe {
+                    let head = (src as *const u64).read_unaligned();
                     let tail = (src.add(offset) as *const u64).read_unaligned();
+                    (dst as *mut u64).write_unaligned(head);
                     (dst.add(offset) as *mut u64).write_unaligned(tail);
                 }
             } else {
